@@ -48,7 +48,8 @@ RULE = ("cases = (h5) every vector within D deviations (quick 2, thorough 3, "
         "plus the full 4^4 product of metadata kinds on both multi-channel "
         "shapes) of the default over shape x dtype x spacing x name x "
         "file-name form x kind of each metadata field, each run through 3 "
-        "save/load cycles; (tiff) one block per channel layout x scaling "
+        "save/load cycles (quick: 2 cycles for vectors with 2 deviations); "
+        "(tiff) one block per channel layout x scaling "
         "option x depth option with dtype x spacing x name x metadata kind x "
         "route inside (quick: <= 1 deviation, thorough: full product), 3 "
         "cycles; (raster) one block per PIL-written raster x file type with "
@@ -231,7 +232,10 @@ def cases(tier, seed):
     out = []
     vecs, _ = _h5_vectors(tier)
     for v in vecs:
-        out.append({"id": "h5:" + vec_id(v), "kind": "h5", "v": v})
+        ndev = sum(1 for k in H5_AXES if v[k] != H5_AXES[k][0])
+        out.append({"id": "h5:" + vec_id(v), "kind": "h5", "v": v,
+                    "cycles": CYCLES if tier == "thorough" or ndev <= 1
+                    else 2})
     for f in FIELDS:
         types = (["np.float64", "int", "np.float32", "np.int64", "0d-array",
                   "zero"]
@@ -533,7 +537,8 @@ def _run_h5(case, ck, d):
         ck.true("h5-build", False, "data_grid raised %s" % _exc(e))
         return "build-failed"
     fp0 = fp_xarray(im)
-    acc = _h5_cycles(ck, d, im, v["target"], "f")
+    acc = _h5_cycles(ck, d, im, v["target"], "f",
+                     cycles=case.get("cycles", CYCLES))
     ck.true("h5-input-purity", fp_xarray(im) == fp0,
             "the original image changed during save/load")
     return digest(*acc)
